@@ -206,6 +206,8 @@ def str_slice(I, s, sl):
 
 
 def getitem(I, v, k):
+    if hasattr(v, "vgetitem"):
+        return v.vgetitem(I, k)
     if isinstance(v, _i.PyDict):
         ent = I.dict_find(v, k)
         if ent is None:
@@ -297,6 +299,8 @@ def value_method(I, v, name):
 
 def str_method(I, s, name):
     sym = isinstance(s, Sym)
+    if not hasattr(bytes if is_bytes(s) else str, name):
+        I.raise_("AttributeError", f"'str' object has no attribute '{name}'")
 
     def native(I_, a, k):
         if any(isinstance(x, Sym) for x in a) or any(isinstance(x, Sym) for x in k.values()):
@@ -398,6 +402,14 @@ def list_method(I, v, name):
         if name == "append":
             L.append(a[0])
         elif name == "insert":
+            if isinstance(a[0], SInt):
+                # symbolic index into a list of known length: case split over the effective insertion point
+                n, i = len(L), a[0].t
+                eff = z3.If(i < 0, z3.If(n + i < 0, 0, n + i), z3.If(i > n, n, i))
+                for j in range(n + 1):
+                    if j == n or I_.ctx.branch(SBool(eff == j)):
+                        L.insert(j, a[1])
+                        return None
             if isinstance(a[0], Sym):
                 raise Outside("insert at symbolic index")
             L.insert(a[0], a[1])
@@ -537,6 +549,8 @@ def call_extern(I, fn, args, kwargs):
             return v if isinstance(v, (bool, SBool)) else I.truth(v)
         if nm == "len":
             v = args[0]
+            if hasattr(v, "vlen"):
+                return v.vlen(I)
             if isinstance(v, (str, bytes, tuple)):
                 return len(v)
             if isinstance(v, SStr):
